@@ -69,6 +69,20 @@ func stmtTexts(c *km.Ctx, v ssa.Value) []string {
 	if s, ok := constSQL(v); ok {
 		return []string{s}
 	}
+	// a field of an entry of a package-level table of statement groups: table[dialect].field
+	if base, fld, ok := km.FieldOfLoad(km.Unwrap(v)); ok {
+		b := km.CellOrigin(base)
+		if ex, isEx := b.(*ssa.Extract); isEx {
+			b = ex.Tuple
+		}
+		if lk, isLk := b.(*ssa.Lookup); isLk {
+			if u, isU := km.Unwrap(lk.X).(*ssa.UnOp); isU {
+				if g, isG := u.X.(*ssa.Global); isG {
+					return globalTableFieldStrings(c, g, fld)
+				}
+			}
+		}
+	}
 	if lk, ok := km.Unwrap(v).(*ssa.Lookup); ok {
 		if u, ok := km.Unwrap(lk.X).(*ssa.UnOp); ok {
 			if g, ok := u.X.(*ssa.Global); ok {
@@ -646,4 +660,49 @@ func paramNotFromCache(c *km.Ctx, s *km.Sem, fn *ssa.Function, p *ssa.Parameter,
 		}
 	}
 	return true, "all callers pass a profile that is not from the cache"
+}
+
+// globalTableFieldStrings: the constant strings field `field` takes over the entries of a package-level map of
+// structs that is assigned once and filled in its package initialiser (sorted; nil when an entry is not constant).
+func globalTableFieldStrings(c *km.Ctx, g *ssa.Global, field string) []string {
+	st := singleStoreTo(c, g)
+	if st == nil || g.Pkg == nil {
+		return nil
+	}
+	initFn := g.Pkg.Func("init")
+	if initFn == nil || st.Parent() != initFn {
+		return nil
+	}
+	m := km.Unwrap(st.Val)
+	var out []string
+	bad := false
+	km.Instrs(initFn, func(in ssa.Instruction) {
+		mu, ok := in.(*ssa.MapUpdate)
+		if !ok || km.Unwrap(mu.Map) != m {
+			return
+		}
+		sy := km.SymOf(mu.Value)
+		if sy == nil || sy.Op != "struct" {
+			bad = true
+			return
+		}
+		f, has := sy.Fields[field]
+		if !has {
+			return // zero value: no statement for this dialect
+		}
+		if f.Op != "const" {
+			bad = true
+			return
+		}
+		if cs, ok := km.ConstString(f.Val); ok {
+			out = appendUniq(out, cs)
+		} else {
+			bad = true
+		}
+	})
+	if bad {
+		return nil
+	}
+	sort.Strings(out)
+	return out
 }
